@@ -89,11 +89,26 @@ def check(tier):
     finally:
         import shutil
         shutil.rmtree(work, ignore_errors=True)
+    # adjunct: the oracle's order lemmas over all of Nat x Nat, proved by TLAPS (does not bind the code)
+    tl = {"ran": False}
+    import shutil as _sh
+    if _sh.which("tlapm"):
+        w2 = common.scratch("tlaps-")
+        try:
+            _sh.copy(os.path.join(common.SPEC, "LexOrder.tla"), w2)
+            pr = subprocess.run(["tlapm", "LexOrder.tla"], cwd=w2, stdout=subprocess.PIPE, stderr=subprocess.STDOUT, timeout=600)
+            import re
+            m = re.search(r"All (\d+) obligations? proved", pr.stdout.decode())
+            tl = {"ran": True, "all_proved": bool(m), "obligations": int(m.group(1)) if m else 0}
+            if not m:
+                raise common.MachineryError("TLAPS no longer proves the order lemmas of the oracle:\n" + pr.stdout.decode()[-1500:])
+        finally:
+            _sh.rmtree(w2, ignore_errors=True)
     bykind = {}
     for c in cases:
         bykind[c["k"]] = bykind.get(c["k"], 0) + 1
     rep.coverage.update({"states": distinct, "transitions": gen, "traces_validated_against_impl": len(trace),
-                         "cases_by_kind": bykind, "random_pairs": nrand, "exhaustive": True,
+                         "cases_by_kind": bykind, "tlaps_order_lemmas": tl, "random_pairs": nrand, "exhaustive": True,
                          "rule": "all pairs over the grid {0,1,2,2^31-2,2^31-1}^2 (625) x 6 operators + repr; 256 range pairs; location pairs; foreign operands; plus seeded random position pairs; order lemmas (trichotomy, transitivity) of the oracle checked by TLC on the grid",
                          "samples": trace[:2] + trace[-2:]})
     rep.assumptions = ["the harness only calls operators / repr on the public classes and records the outcome", "TLC evaluates Lex and ToString faithfully"]
